@@ -165,6 +165,7 @@ def run_case(case):
         prev_end = st
         for t, marker in MARKERS.items():
             sg = segs.get(t)
+            raw_sg = sg
             if sg is not None:
                 sg = {"start": sg.get("start", 0), "end": sg.get("end", 0), "type": t}
             if sg is None:
@@ -173,7 +174,10 @@ def run_case(case):
                 continue
             if not (st < sg["start"] <= sg["end"] < en + 1) or sg["start"] <= prev_end - 0 and t != "CLIENT_INITIALIZATION" and sg["start"] < prev_end:
                 bad("segment-out-of-range", {"file": sm["file"], "segment": sg, "tags": [st, en]}, segment=t,
-                    sample_has_no_response_handling=MARKERS["RESPONSE_HANDLING"] not in src)
+                    sample_has_no_response_handling=MARKERS["RESPONSE_HANDLING"] not in src,
+                    # the recorded shape: REQUEST_EXECUTION with a start and no end, RESPONSE_HANDLING with an end and no start
+                    open_segment_of_void_sample=(t == "REQUEST_EXECUTION" and bool(raw_sg.get("start")) and not raw_sg.get("end")) or
+                                                (t == "RESPONSE_HANDLING" and bool(raw_sg.get("end")) and not raw_sg.get("start")))
             elif lines[sg["start"] - 1].strip() != marker:
                 bad("segment-does-not-start-at-marker", {"file": sm["file"], "segment": sg, "line": lines[sg["start"] - 1].strip()[:80]}, segment=t)
             prev_end = sg["end"]
